@@ -70,14 +70,14 @@ def run(ctx, replay=None):
     d = ctx.spec_dir()
     name = "MCRepo_cov.cfg"
     with open(os.path.join(d, name), "w") as f:
-        f.write('CONSTANTS\n  Ents = {"r", "s", "l"}\n  Parent <- ChainParent\n  AltParents <- ChainAlt\n  Contents = {0, 1}\n  FlagSets <- ExpiryFlagSets\n  EnvActs <- FullEnv\n'
+        f.write('CONSTANTS\n  Ents = {"r", "s", "l"}\n  Parent <- ChainParent\n  AltParents <- ChainAlt\n  Contents = {0, 1}\n  FlagSets <- ExpiryFlagSets\n  EnvActs <- EverythingEnv\n'
                 '  FaultActs <- AllFault\n  UsesProfile <- LeafProfile\n  MaxEnv = 1\nINIT Init\nNEXT Next\nINVARIANTS TypeInv ConvergedAfterDefault Idempotent\nCHECK_DEADLOCK FALSE\n')
     rc, out = ctx.tlc("MCRepo", cfg=name, workers=8, extra=["-coverage", "1"], timeout=1200)
     acts = {}
     for m in re.finditer(r"<(\w+) line \d+, col \d+ to line \d+, col \d+ of module Repo(?: \([\d ]+\))?>: (\d+):(\d+)", out):
         acts[m.group(1)] = max(acts.get(m.group(1), 0), int(m.group(3)))
     acts["WriteOKAct"] = acts.get("Step", 0)      # WriteOKAct is the bare Step([name |-> "WriteOK"]) disjunct
-    expected = ["EditAct", "TouchAct", "DeleteAct", "TruncateAct", "StripKeyAct", "ReplaceAct", "MakeCsrAct", "EditProfileAct", "ExpireAct", "SetIssuerAct", "StartRunAct", "WriteOKAct", "SignFailAct",
+    expected = ["EditAct", "TouchAct", "DeleteAct", "TruncateAct", "StripKeyAct", "ReplaceAct", "MakeCsrAct", "EditProfileAct", "ExpireAct", "SetIssuerAct", "RemoveConfigAct", "AddConfigAct", "StartRunAct", "WriteOKAct", "SignFailAct",
                 "WriteErrAct", "WriteTornAct", "DieAct"]
     missing = [a for a in expected if acts.get(a, 0) == 0]
     if missing:
